@@ -52,7 +52,8 @@ type Case struct {
 	Crafts     []Craft   `json:"crafts"`
 	Settle     bool      `json:"settle"` // finalise the sub-channel and craft the settlement update
 	SettleKind string    `json:"settlekind"`
-	FinalBals  [2]uint64 `json:"finalbals"` // sub-channel final balances by role (same sum as SubBals)
+	FinalBals  [2]uint64 `json:"finalbals"`        // sub-channel final balances by role (same sum as SubBals)
+	MidPay     uint64    `json:"midpay,omitempty"` // ordinary payment of the adversary to the honest party between the finalisation of the sub-channel and its settlement
 }
 
 var craftKinds = []string{"none", "none", "actor-honest", "actor-out-of-range", "sig-other-state", "sig-other-key", "sig-garbage", "sig-short",
@@ -60,7 +61,7 @@ var craftKinds = []string{"none", "none", "actor-honest", "actor-out-of-range", 
 	"locked-id", "locked-amount", "locked-imap", "locked-imap-grow", "locked-add", "locked-remove", "locked-swap-amount"}
 
 var fundKinds = []string{"ok", "ok", "stale-base", "debit-wrong-party", "debit-split", "debit-honest-more", "extra-payment", "wrong-amount", "wrong-imap", "touch-other", "no-suballoc"}
-var settleKinds = []string{"ok", "ok", "credit-wrong-party", "credit-split", "keep-suballoc", "remove-other", "extra-payment"}
+var settleKinds = []string{"ok", "ok", "stale-base", "credit-wrong-party", "credit-split", "keep-suballoc", "remove-other", "extra-payment"}
 
 func drawCase(t *rapid.T) Case {
 	var c Case
@@ -86,6 +87,9 @@ func drawCase(t *rapid.T) Case {
 	tot := c.SubBals[0] + c.SubBals[1]
 	fm := uint64(rapid.IntRange(0, int(tot)).Draw(t, "finalM"))
 	c.FinalBals = [2]uint64{fm, tot - fm}
+	if rapid.IntRange(0, 2).Draw(t, "hasmidpay") == 0 || c.SettleKind == "stale-base" {
+		c.MidPay = uint64(rapid.IntRange(1, 9).Draw(t, "midpay"))
+	}
 	return c
 }
 
@@ -670,6 +674,14 @@ func runCase(c Case) *h.Outcome {
 				send(&client.ChannelUpdateMsg{ChannelUpdate: client.ChannelUpdate{State: fs, ActorIdx: w.mIdx}, Sig: adv.SignState(fs)})
 				if st := subH.State(); st.IsFinal {
 					w.subFinal = st.Clone()
+					// optionally the parent moves on between finalisation and settlement
+					staleP := hch.State()
+					if c.MidPay > 0 {
+						if msg, ok := craft(Craft{Kind: "none", Amount: c.MidPay, ToH: true}, staleP, w, adv); ok {
+							send(msg)
+							o.Class("sub:parent-update-before-settlement")
+						}
+					}
 					// the honest party settles its sub-channel: it now waits for the parent update
 					settled := make(chan error, 1)
 					go func() {
@@ -688,6 +700,13 @@ func runCase(c Case) *h.Outcome {
 					ok := true
 					switch c.SettleKind {
 					case "ok":
+						credit(mI, st.Balances[0][mI])
+						credit(hI, st.Balances[0][hI])
+					case "stale-base": // settlement computed from the parent state at finalisation: rolls the payment back
+						if staleP.Version == cur.Version {
+							ok = false
+						}
+						s.Balances = staleP.Balances.Clone()
 						credit(mI, st.Balances[0][mI])
 						credit(hI, st.Balances[0][hI])
 					case "credit-wrong-party":
@@ -768,7 +787,7 @@ func min64(a, b uint64) uint64 {
 	return b
 }
 
-const rule = "an honest client H (user handler accepts everything) with a ledger channel to an adversary M that holds a valid key: after 0-3 honest updates M optionally opens a sub-channel by hand (raw proposal, parameters recomputed by the harness, own version-0 signature) and sends a crafted parent funding update (optionally after a further ordinary parent update; correct / computed from the stale parent state / debits the wrong party / shifts one unit / extra payment / wrong amount / index map / second foreign sub-allocation / nothing locked), then 1-6 crafted ordinary updates, each an acceptable successor of H's current state with one mutation from a 25-kind alphabet (actor, four signature faults, version, id, sums, dimensions, asset, backend, final, negative, and seven edits of locked sub-allocations with compensated totals), then optionally finalises the sub-channel and sends a crafted settlement update while H's Settle waits for it. Oracle (one-directional): every SigAdded(own index) event of H's persister on the ledger channel is judged by an independent acceptability predicate written from the property text (peer signature over exactly that state, valid successor of H's current state at that moment, sender as actor and locked entries untouched for ordinary updates; for the one sub-channel H takes part in: exactly its sub-allocation added/removed and every participant's balance changed by exactly its balance in the funded/settled sub-channel). non-trivial = the case contains at least one near-miss message"
+const rule = "an honest client H (user handler accepts everything) with a ledger channel to an adversary M that holds a valid key: after 0-3 honest updates M optionally opens a sub-channel by hand (raw proposal, parameters recomputed by the harness, own version-0 signature) and sends a crafted parent funding update (optionally after a further ordinary parent update; correct / computed from the stale parent state / debits the wrong party / shifts one unit / extra payment / wrong amount / index map / second foreign sub-allocation / nothing locked), then 1-6 crafted ordinary updates, each an acceptable successor of H's current state with one mutation from a 25-kind alphabet (actor, four signature faults, version, id, sums, dimensions, asset, backend, final, negative, and seven edits of locked sub-allocations with compensated totals), then optionally finalises the sub-channel and (optionally after a further ordinary parent update) sends a crafted settlement update while H's Settle waits for it (correct / computed from the stale parent state / credits the wrong party / shifts one unit / keeps the sub-allocation / extra payment). Oracle (one-directional): every SigAdded(own index) event of H's persister on the ledger channel is judged by an independent acceptability predicate written from the property text (peer signature over exactly that state, valid successor of H's current state at that moment, sender as actor and locked entries untouched for ordinary updates; for the one sub-channel H takes part in: exactly its sub-allocation added/removed and every participant's balance changed by exactly its balance in the funded/settled sub-channel). non-trivial = the case contains at least one near-miss message"
 
 func TestCountersign(t *testing.T) {
 	rec := h.Begin("C07", "")
